@@ -141,6 +141,9 @@ def parseOp : R POp := do
   | "GR" => do
     let s ← nat; let l ← nat; let c ← nat
     pure { op := Op.gaussianResize s l c, dst := s }
+  | "G1" => do
+    let s ← nat; let l ← nat
+    pure { op := Op.gaussianResize s l 0, dst := s }
   | "AU" => do
     let s ← nat; let qr ← nat; let qc ← nat
     let vals ← listOf (qr * qc) flt
